@@ -227,10 +227,12 @@ def Report.specfail (r : Report) (st : DSt) (ln : Nat) (cmd spec impl : String) 
   { r with specfails := r.specfails + 1,
            msgs := r.msgs.push s!"SPECFAIL {st.caseId} {ln} {cmd} spec={spec} impl={impl}" }
 
-/-- a panic inside the crate or its dependencies (absolute source path); a panic of the harness itself on a malformed
-case (`src/interp.rs: no_int`, relative path) is not an observation about the implementation -/
-def implPanicked (obs : List String) : Bool :=
-  obs.head? == some "panic" && ((obs.getD 1 "").startsWith "/")
+def implPanicked (obs : List String) : Bool := obs.head? == some "panic"
+
+/-- a panic of the harness itself on a malformed case (a command issued without the object it needs: `expect("no int")`,
+`"no qreg"`, ..), e.g. after the shrinker dropped the line that created it: not an observation about the implementation -/
+def harnessMisuse (obs : List String) : Bool :=
+  obs.head? == some "panic" && ["no_int", "no_op", "no_qreg", "no_q2", "no_creg", "no_sym", "no_vreg"].contains (obs.getD 2 "")
 
 /-- does an operator of the interpreter's queue carry a non-finite parameter (a NaN / infinite half-angle phase)?
 Such a program is the known finding D16 (accepted, panics when measured); the tag keeps it apart from any other panic -/
@@ -1388,7 +1390,7 @@ def step (st : DSt) (r : Report) (ln : Nat) (cmd obs : List String) : DSt × Rep
     -- SPEC (C12): the interpreter never panics
     let nonFinite := (st.sym.map (fun s => queueNonFinite s.qOps)).getD false ||
                      (st.int.map (fun i => queueNonFinite i.qOps)).getD false
-    let r := if c.startsWith "i" && implPanicked obs then
+    let r := if c.startsWith "i" && implPanicked obs && !harnessMisuse obs then
                r.specfail st ln (if nonFinite then "c12.panic.nonfinite" else "c12.panic") "a result or an error value"
                  (String.intercalate " " (obs.take 4))
              else r
